@@ -50,6 +50,8 @@ type Scenario struct {
 	// configuration back ("empty", or "stored" = the head taken after Preload) while the cache is kept.
 	Warm        []Lookup
 	ResetConfig string
+	// StrictPartials: the server answers "not found" for a partial tile whose complete tile exists.
+	StrictPartials bool
 }
 
 // CurrentThread returns the id (1-based, in spawn order) of the top-level goroutine the caller descends
@@ -57,6 +59,9 @@ type Scenario struct {
 var CurrentThread func() int
 
 func mv(i int) (string, string) {
+	if i%4 == 1 {
+		return fmt.Sprintf("m%d.example/p%d", i, i), fmt.Sprintf("v1.0.%d-RC.%d", i, i) // upper case in the version
+	}
 	return fmt.Sprintf("m%d.example/p%d", i, i), fmt.Sprintf("v1.0.%d", i)
 }
 
@@ -95,6 +100,9 @@ func All() []Scenario {
 		{Name: "three-heads-one-client-h8", Height: 8, Preload: pre(10, 11, 12), Stored: true, Clients: 1, Threads: [][]Lookup{{L(0, 0, false)}, {L(0, 1, false)}, {L(0, 3, false)}}},
 		{Name: "height-8-single-tile", Height: 8, Preload: pre(10, 11, 12, 13, 14), Stored: true, Clients: 1, Threads: [][]Lookup{{L(0, 0, false)}, {L(0, 1, true)}}},
 		{Name: "one-thread-two-lookups-vs-one", Height: 2, Preload: pre(10), Clients: 1, Threads: [][]Lookup{{L(0, 0, false), L(0, 1, false)}, {L(0, 1, true)}}},
+		{Name: "growing-log-strict-partials-h1", Height: 1, Preload: pre(10), Stored: true, Clients: 1, StrictPartials: true, Threads: [][]Lookup{{L(0, 0, false)}, {L(0, 1, false)}}},
+		{Name: "growing-log-strict-partials-h2", Height: 2, Preload: pre(10, 11), Stored: true, Clients: 2, StrictPartials: true, Threads: [][]Lookup{{L(0, 0, false)}, {L(1, 1, false)}, {L(0, 3, false)}}},
+		{Name: "growing-log-strict-partials-h3-empty", Height: 3, Clients: 1, StrictPartials: true, Threads: [][]Lookup{{L(0, 0, false), L(0, 1, false)}, {L(0, 3, false)}}},
 		{Name: "cache-ahead-of-empty-config", Height: 2, Preload: pre(10), Clients: 2, Warm: []Lookup{L(0, 0, false), L(0, 1, false)}, ResetConfig: "empty", Threads: [][]Lookup{{L(0, 0, false)}, {L(1, 1, false)}}},
 		{Name: "cache-ahead-of-older-config", Height: 2, Preload: pre(10), Stored: true, Clients: 1, Warm: []Lookup{L(0, 0, false), L(0, 1, false)}, ResetConfig: "stored", Threads: [][]Lookup{{L(0, 1, true)}, {L(0, 0, false)}}},
 	}
@@ -171,19 +179,20 @@ type Op struct {
 
 // Env is the shared world of one execution: server(s), config, cache and the operation log.
 type Env struct {
-	mu        sync.Mutex // real mutex: held only inside short critical sections without scheduling points
-	Point     func(label string)
-	servers   []*sumdb.Server
-	tservers  []*sumdb.TestServer
-	Config    map[string][]byte
-	Cache     map[string][]byte
-	Ops       []Op
-	Writes    []ConfigWrite
-	HeadsSeen []int64 // sizes of tree heads carried by lookup responses
-	Served    []ServedHead
-	byThread  bool
-	Security  []string
-	name      string
+	mu             sync.Mutex // real mutex: held only inside short critical sections without scheduling points
+	Point          func(label string)
+	servers        []*sumdb.Server
+	tservers       []*sumdb.TestServer
+	Config         map[string][]byte
+	Cache          map[string][]byte
+	Ops            []Op
+	Writes         []ConfigWrite
+	HeadsSeen      []int64 // sizes of tree heads carried by lookup responses
+	Served         []ServedHead
+	byThread       bool
+	strictPartials bool
+	Security       []string
+	name           string
 }
 
 // ServedHead is the signed tree head carried by one lookup response.
@@ -221,6 +230,23 @@ func (v view) ReadRemote(path string) ([]byte, error) {
 		if v.e.byThread && CurrentThread != nil {
 			if t := CurrentThread(); t > 0 {
 				srv = v.e.servers[(t-1)%len(v.e.servers)]
+			}
+		}
+	}
+	if v.e.strictPartials && strings.HasPrefix(path, "/tile/") {
+		// a server that stops serving the partial widths of a tile once the tile is complete (it keeps only
+		// the complete tile, as the tile protocol allows); its "not found" is a plain error value
+		if t, err := tlog.ParseTilePath(path[1:]); err == nil && t.L >= 0 && t.W < 1<<uint(t.H) {
+			rq, _ := http.NewRequest("GET", "http://sum.example/latest", nil)
+			lw := httptest.NewRecorder()
+			srv.ServeHTTP(lw, rq)
+			if n, err := note.Open(lw.Body.Bytes(), note.VerifierList(world.TheKeys().V)); err == nil {
+				if cur, err := tlog.ParseTree([]byte(n.Text)); err == nil {
+					// hashes at the tile's level in the server's current log
+					if cur.N>>uint(t.H*t.L) >= (t.N+1)<<uint(t.H) {
+						return nil, fmt.Errorf("GET %s: 404 not found", path)
+					}
+				}
 			}
 		}
 	}
@@ -322,7 +348,7 @@ type Res struct {
 // done, point is the scheduling hook for external operations (nil when free-running).
 func Exec(sc Scenario, spawn func(func()), wait func(), point func(string)) (*Env, []Res) {
 	k := world.TheKeys()
-	e := &Env{Point: nil, Config: map[string][]byte{}, Cache: map[string][]byte{}, name: k.Name, byThread: sc.ByThread}
+	e := &Env{Point: nil, Config: map[string][]byte{}, Cache: map[string][]byte{}, name: k.Name, byThread: sc.ByThread, strictPartials: sc.StrictPartials}
 	nsrv := 1
 	if sc.Fork {
 		nsrv = 2
@@ -341,7 +367,10 @@ func Exec(sc Scenario, spawn func(func()), wait func(), point func(string)) (*En
 	for i := range e.servers {
 		for _, m := range sc.Preload {
 			pv.id = i
-			if _, err := pv.ReadRemote("/lookup/" + m); err != nil {
+			mp, mver, _ := strings.Cut(m, "@")
+			ep, _ := module.EscapePath(mp)
+			ev, _ := module.EscapeVersion(mver)
+			if _, err := pv.ReadRemote("/lookup/" + ep + "@" + ev); err != nil {
 				panic("preload failed: " + err.Error())
 			}
 		}
